@@ -380,7 +380,8 @@ def evaluate_wrapper(case, stats):
     out = py.call(f, [ins[i] for i in case["args"]])
     if case["cast"]:
         out = tracer.cast(out, lambda origin: py.Value(origin))
-    graph = tracer.Graph(ins, out, name="op")
+    # anonymous graphs are what vmap-style backends create for inner functions (only those are candidates for inlining)
+    graph = tracer.Graph(ins, out, name=None)
     with GR.Recorder():
         try:
             post = tracer.optimize(graph, opts)
